@@ -2,7 +2,7 @@
 
 PLAN = {
     'C01': dict(level='proof', engines=['sumlib', 'segnative', 'tasknative', 'beatstruct', 'libconf']),
-    'C02': dict(level='proof', engines=['tasknative']),
+    'C02': dict(level='proof', engines=['tasknative', 'chordevalnative']),
     'C03': dict(level='proof', engines=['bundles', 'multipitchnative']),
     'C04': dict(level='proof', engines=['keynative', 'matchnative', 'tasknative', 'multipitchnative', 'libconf']),
     'C05': dict(level='other', engines=['matchnative', 'bundles', 'multipitchnative'],
